@@ -174,6 +174,10 @@ impl BPBFoundation {
             debug!("invalid sector count 0");
             ans = false;
         }
+        if self.sec_per_trk==[0,0] || self.num_heads==[0,0] {
+            debug!("invalid geometry {} sectors per track, {} heads",self.secs_per_track(),self.heads());
+            ans = false;
+        }
         ans
     }
     pub fn sec_size(&self) -> u64 {
